@@ -72,7 +72,7 @@ COMMON = ('Static structural rules decided on the type-checked program (rustc bu
 
 # Rule groups for dependent properties: a property that is *derived* from another (DESIGN §5) runs that property's necessary conditions too.
 G_EXCL = [(RP.tok_exec, None), (RP.pa_rules, {'PA-excl', 'PA-stuck', 'PA'}), (RP.tok_requeue, None), (RQ.qd_queue, None), (RP.tr_immediate, None), (RO.c05_drop, None)]
-G_ORDER = [(RO.c02_append, None), (RQ.qd_queue, None), (RP.tr_immediate, None), (RP.tr_sibling, None, ['sync']), (RP.tok_requeue, None),
+G_ORDER = [(RO.c02_append, None), (RO.free_delegates, None, ['|delegates']), (RQ.qd_queue, None), (RP.tr_immediate, None), (RP.tr_sibling, None, ['sync']), (RP.tok_requeue, None),
            (RP.pa_rules, {'PA-excl', 'PA'}), (RP.tok_exec, None)]
 
 prop('C01', COMMON +
@@ -111,7 +111,7 @@ prop('C04', COMMON +
      ['strategy chosen atomically; waits only when the queue is owned or parked (TR-defer)', 'blocked caller cannot miss its wake-up (CV1, CV2, QD-waiters)', 'caller runs the queue itself when woken and it is claimable (ORD-C04-steal)',
       'own result, after completion (ORD-C04-result, UA-wait)', 'no lock-order cycle, no blocking/foreign code under an internal lock (LO, BL)', 'caller-side execution holds the token (TOK-exec)', 'caller-side parking: wake latched while polling, consumed before parking, unpark + re-check loop (PARK-wake, ORD-C06-drain)'],
      ['termination of the operations ahead; OS fairness', '"from inside a job of a different Desync" is derived from BL (no internal lock is held while a job runs)'],
-     [(RP.tr_defer, None, ['sync']), (RL.cv, None), (RQ.qd_wake_blocked, None), (RQ.qd_run, None), (RP.tr_roles, None), (RP.tr_dead, None), (RO.c04_steal, None), (RO.c04_result, None), (RU.ua_wait, None), (RL.lo, None), (RL.bl, None), (RL.lock_classes, None), (RP.tok_exec, None), (RP.tok_resched, None),
+     [(RP.tr_defer, None, ['sync']), (RL.cv, None), (RQ.qd_wake_blocked, None), (RQ.qd_run, None), (RP.tr_roles, None), (RP.tr_dead, None), (RO.free_delegates, None, ['sync|']), (RO.c04_steal, None), (RO.c04_result, None), (RU.ua_wait, None), (RL.lo, None), (RL.bl, None), (RL.lock_classes, None), (RP.tok_exec, None), (RP.tok_resched, None),
       (RP.park_wake, None, ['WakeThread', 'run_one_job_now']), (RO.c06_drain, None, ['run_one_job_now'])])
 
 prop('C05', COMMON +
@@ -127,7 +127,7 @@ prop('C06', COMMON +
      'and a queue parked for a polling task is offered to and accepted by the pool (PARK-wake); the two queue wakers agree on the states both handle (TR-sibling); a job that returned Pending is back on the queue before the queue is parked (TOK-requeue).',
      ['every parked configuration is resumable by waker/claimer transitions (PA-wake)', 'wakers call the matching resume action; pool takes over WaitingForPoll (PARK-wake)', 'poll-side drain order, DrainWaker latch table, DoubleWaker, park re-check loop (ORD-C06-drain)', 'wakers agree on Running and WaitingForWake (TR-sibling)', 'requeue before parking (TOK-requeue)', 'the polling task stores its waker before it parks the queue (LW-owner)'],
      ['"for every position of the wake-up" as executions', 'futures that break the waker contract'],
-     [(RP.pa_rules, {'PA-wake', 'PA'}), (RP.park_wake, None), (RO.c06_drain, None), (RP.tr_sibling, None, ['WakeQueue/WakeThread']), (RP.tok_requeue, None), (RW.lw_owner, None), (RP.tr_roles, None), (RO.c07_own, None, ['holds-queue-strongly'])])
+     [(RP.pa_rules, {'PA-wake', 'PA'}), (RP.park_wake, None), (RO.c06_drain, None), (RP.tr_sibling, None, ['WakeQueue/WakeThread']), (RP.tok_requeue, None), (RW.lw_owner, None), (RP.tr_roles, None), (RO.c07_own, None, ['holds-queue-strongly']), (RO.free_delegates, None, ['FutureId'])])
 
 prop('C07', COMMON +
      'Decided: result and waker of a scheduler future live under one mutex with check-and-register / set-and-take atomic (LW1, LW2; the owner\'s unconditional stores are justified by LW-owner); the job signals once, after its operation completed, '
@@ -136,7 +136,7 @@ prop('C07', COMMON +
      ['check-and-register / set-and-take atomic (LW1, LW2, LW-owner)', 'signal once, after completion (ORD-C07-signal)', 'job owned by the queue (ORD-C07-own)', '.sync() waits on the queue (ORD-C07-syncwait)', 'poll never defers on Idle/Pending (TR-defer)',
       'abandoned poll-side drain is taken over; the real waker is installed only after the queue is parked (PARK-wake, ORD-C06-drain)', 'poll-side drain holds and releases the token (TOK-exec, TOK-leak)', 'the awaiting task is woken with no internal lock held (BL)'],
      ['equality of the delivered value with what the user closure computed', 'ordering of sibling polls as executions'],
-     [(RW.lw, None, ['|waker']), (RW.lw_owner, None), (RW.lw_cancel, None), (RW.lw_register, None, ['SchedulerFuture']), (RO.c07_signal, None), (RO.c07_own, None), (RO.c07_syncwait, None), (RP.tr_defer, None, ['SchedulerFuture::poll']), (RP.park_wake, None), (RO.c06_drain, None, ['drain_queue', 'DW-table', 'DoubleWaker']), (RP.tok_exec, None), (RP.tok_leak, None, ['SchedulerFuture']), (RL.bl, None), (RQ.qd_run, None, ['FutureJob', 'UnsafeJob::run'])])
+     [(RW.lw, None, ['|waker']), (RW.lw_owner, None), (RW.lw_cancel, None), (RW.lw_register, None, ['SchedulerFuture']), (RO.c07_signal, None), (RO.c07_own, None), (RO.c07_syncwait, None), (RP.tr_defer, None, ['SchedulerFuture::poll']), (RP.park_wake, None), (RO.c06_drain, None, ['drain_queue', 'DW-table', 'DoubleWaker']), (RP.tok_exec, None), (RP.tok_leak, None, ['SchedulerFuture']), (RL.bl, None), (RQ.qd_run, None, ['FutureJob', 'UnsafeJob::run']), (RO.free_delegates, None, ['future_desync|', 'FutureId'])])
 
 prop('C08', COMMON +
      'Decided (ORD-C08): the two oneshot channels of future_sync are split so that the slot job holds the queue-ready sender and the task-finished receiver and the SyncFuture the opposite ends; the slot job announces, waits, then signals, also when cancelled; '
@@ -144,14 +144,14 @@ prop('C08', COMMON +
      'SyncFuture drops the user future before the completion sender and has no Drop impl; the slot is reserved at call time (ORD-C02-append).',
      ['channel pairing, slot job order, SyncFuture state order, field drop order (ORD-C08)', 'slot reserved at call time (ORD-C02-append)', 'signal after completion, once (ORD-C07-signal)', 'the cancel wake-up reaches the queue even when it is being drained by a polling task (ORD-C06-drain, PARK-wake)'],
      ['deadlock-freedom of nested awaits as executions', 'that a mid-operation drop happens "before any later operation begins" follows from drop order + slot job order but is a statement about executions'],
-     [(RO.c08, None), (RO.c02_append, None), (RO.c07_signal, None), (RO.c06_drain, None, ['drain_queue', 'DW-table', 'DoubleWaker']), (RP.park_wake, None), (RL.bl, None)] + G_EXCL)
+     [(RO.c08, None), (RO.c02_append, None), (RO.c07_signal, None), (RO.c06_drain, None, ['drain_queue', 'DW-table', 'DoubleWaker']), (RP.park_wake, None), (RL.bl, None), (RO.free_delegates, None, ['future_sync|'])] + G_EXCL)
 
 prop('C09', COMMON +
      'Decided: a Busy outcome of try_sync has written nothing (every path to Err(Busy) leaves the token untouched: TOK-leak); try_sync never reaches a blocking primitive except the bounded join of finished threads (ORD-C09-noblock); '
      'it runs its closure only from (Idle, queue empty), exactly like sync\'s immediate row (TR-immediate, TR-sibling); after the immediate run the queue goes Idle and is rescheduled (TOK-resched); no running state without a runner is reachable (PA-stuck).',
      ['Busy has written nothing (TOK-leak on try_sync)', 'never blocks (ORD-C09-noblock)', 'immediate only on Idle and empty (TR-immediate, TR-sibling)', 'Idle then reschedule_queue after the run (TOK-resched)', 'no ownerless running state (PA-stuck)', 'a closure that panics in the immediate run leaves the queue Panicked, not Running for ever (TOK-guard); releases go to Idle, never to a parked state or to Panicked (TR-roles, TR-dead)'],
      ['"succeeds once quiescent" as a statement about time'],
-     [(RP.tok_leak, None), (RO.c09_noblock, None), (RP.tr_immediate, None), (RP.tr_sibling, None, ['try_sync']), (RP.tok_resched, None), (RP.pa_rules, {'PA-stuck', 'PA'}), (RP.tok_exec, None), (RP.tr_roles, None), (RP.tr_dead, None), (RG.tok_guard, None)])
+     [(RP.tok_leak, None), (RO.c09_noblock, None), (RP.tr_immediate, None), (RP.tr_sibling, None, ['try_sync']), (RP.tok_resched, None), (RP.pa_rules, {'PA-stuck', 'PA'}), (RP.tok_exec, None), (RP.tr_roles, None), (RP.tr_dead, None), (RG.tok_guard, None), (RO.free_delegates, None, ['try_sync|'])])
 
 prop('C10', COMMON +
      'Decided: no scheduler-wide lock is held at any job-execution or blocking site (BL); the lock-order graph is acyclic (LO); a ready queue goes to a dormant thread or to a newly spawned one below the maximum, then scheduling is retried (ORD-C10-spawn); '
